@@ -32,7 +32,7 @@ var c20P2Sizes = []int{11, 6}
 var c20P1Sizes = []int{7, 5, 3}
 
 func c20Gen(g *core.Gen) {
-	states := []string{"intact", "deleted", "shifted", "unrepairable", "noparity-intact", "noparity-damaged", "badindex", "noindex"}
+	states := []string{"intact", "deleted", "shifted", "appended", "shifted+deleted", "unrepairable", "noparity-intact", "noparity-damaged", "noparity-shifted", "oneblock-shifted", "badindex", "noindex"}
 	cwds := []string{"set", "parent", "unrelated"}
 	for _, f := range []string{"p2", "p1"} {
 		verifyCmds := [][]string{{"verify", "{PAR}"}, {"v", "{PAR}"}, {"VERIFY", "{PAR}"}, {"-g", "2", "verify", "{PAR}"}, {"verify", "-a", "{PAR}"}}
@@ -134,6 +134,23 @@ func c20Run(ci interface{}, r *core.Rec) {
 			b[0] ^= 0x80
 			ioutil.WriteFile(paths[0], b, 0644)
 		}
+	case "appended":
+		ioutil.WriteFile(paths[0], append(append([]byte{}, datas[0]...), 0xC3, 0xC4), 0644)
+	case "shifted+deleted":
+		os.Remove(paths[1])
+		if c.Fmt == "p2" {
+			ioutil.WriteFile(paths[0], append([]byte{0xEE}, datas[0]...), 0644)
+		} else {
+			ioutil.WriteFile(paths[0], append([]byte{0xEE}, datas[0]...), 0644)
+		}
+	case "noparity-shifted", "oneblock-shifted":
+		// only displacement / length damage: every slice is still findable, so no recovery block is needed (PAR2)
+		for i, p := range recFiles() {
+			if c.State == "noparity-shifted" || i > 0 {
+				os.Remove(p)
+			}
+		}
+		ioutil.WriteFile(paths[0], append([]byte{0xEE}, datas[0]...), 0644)
 	case "unrepairable":
 		for _, p := range paths {
 			os.Remove(p)
@@ -361,7 +378,7 @@ func init() {
 	core.Register(&core.Prop{
 		ID:    "C20",
 		Level: "model_checking",
-		Rule: "full product through the built par binary: {PAR1, PAR2} x {verify, v, VERIFY, -g 2 verify, verify -a; repair, r, Repair, repair -doublecheck, -g 3 r -doublecheck=true} x archive state {intact, repairable by deletion, repairable by shift/change, unrepairable, no parity (data intact / damaged), damaged index, missing index} x invocation directory {set directory with relative paths, parent with relative paths, unrelated with absolute paths}; create variants (incl. missing input, missing directory), 11 usage-error command lines, unknown extensions. " +
+		Rule: "full product through the built par binary: {PAR1, PAR2} x {verify, v, VERIFY, -g 2 verify, verify -a; repair, r, Repair, repair -doublecheck, -g 3 r -doublecheck=true} x archive state {intact, repairable by deletion, by shift/change, by removing appended bytes, shift+deletion, unrepairable, no parity (data intact / file deleted / file only shifted), one block left + shift, damaged index, missing index} x invocation directory {set directory with relative paths, parent with relative paths, unrelated with absolute paths}; create variants (incl. missing input, missing directory), 11 usage-error command lines, unknown extensions. " +
 			"Oracle (one-directional, as stated): exit 0 => full success by byte truth / library re-verification; verify needed&possible => 1, needed&impossible => 2; repair needed&impossible => 2, possible => 0 and files restored; usage => 3; other failures => neither 0 nor 3; no Go panic; files created relative to the invocation directory. non-trivial = verify/repair/create runs",
 		Assumptions: []string{"'needed' = some protected file not byte-identical; 'possible' = reference count of unfindable slices (unusable files) <= intact recovery blocks (volumes) present"},
 		NewCase:     func() interface{} { return &c20Case{} },
